@@ -61,7 +61,8 @@ func init() {
 		l := l
 		add(fmt.Sprintf("String%d", l), func(r *packet.Registers, a uint16) (any, error) { return r.String(a, l) })
 	}
-	for _, o := range regref.Orders {
+	// side-effect freedom is independent of whether an order is documented: also the word-order-only flags 4, 8, 12
+	for _, o := range append(append([]regref.Order{}, regref.Orders...), regref.LowWordFirst, regref.HighWordFirst, regref.LowWordFirst|regref.HighWordFirst) {
 		po := packet.ByteOrder(o)
 		add(fmt.Sprintf("DoubleRegister/%d", o), func(r *packet.Registers, a uint16) (any, error) { return r.DoubleRegister(a, po) })
 		add(fmt.Sprintf("QuadRegister/%d", o), func(r *packet.Registers, a uint16) (any, error) { return r.QuadRegister(a, po) })
@@ -250,7 +251,7 @@ func randField(rng *rand.Rand, c *Case, i int) modbus.Field {
 		modbus.FieldTypeUint32, modbus.FieldTypeInt32, modbus.FieldTypeUint64, modbus.FieldTypeInt64, modbus.FieldTypeFloat32, modbus.FieldTypeFloat64, modbus.FieldTypeString}
 	f := modbus.Field{Name: fmt.Sprintf("f%d", i), ServerAddress: "dev:502", UnitID: 1, Type: types[rng.Intn(len(types))],
 		Address: uint16(c.Start + rng.Intn(c.Regs)), Bit: uint8(rng.Intn(16)), FromHighByte: rng.Intn(2) == 0, Length: uint8(1 + rng.Intn(8)),
-		ByteOrder: packet.ByteOrder(regref.Orders[rng.Intn(len(regref.Orders))])}
+		ByteOrder: packet.ByteOrder(append(append([]regref.Order{}, regref.Orders...), 4, 8, 12)[rng.Intn(len(regref.Orders)+3)])}
 	return f
 }
 
